@@ -26,6 +26,58 @@ MASKING = re.compile(r"Result::<T, E>::(ok|is_ok|is_err|unwrap_or|unwrap_or_defa
 PANICKING = re.compile(r"Result::<T, E>::(unwrap|expect)$")
 ERR_TYPES = ("std::io::Error", "MysqlShim<", "nom::Err<")
 
+# consumers that hand the error of a fallible callable back to their caller
+PROPAGATING_CONSUMERS = re.compile(r"::(try_for_each|try_fold|try_find)$|Result::<T, E>::(and_then|or_else)$|Option::<T>::(map_or_else|map_or)$")
+LAZY_CONSUMERS = re.compile(r"Iterator::map$|Option::<T>::map$|Iterator>::map$")
+COLLECTING = re.compile(r"::(collect|sum|product|try_for_each|try_fold|transpose)$")
+
+
+def _io_fallible_ret(ty):
+    return ty.startswith("std::result::Result<") and ("std::io::Error" in ty or "MysqlShim<" in ty)
+
+
+def fallible_callables(prog, body):
+    """(bb, call terminator, arg index, description) for every closure / fn item whose result is an io (or shim) Result and that is
+    handed to a call as a value"""
+    out = []
+    clos = {}
+    for b in range(body.n):
+        for st in body.blocks[b]["stmts"]:
+            if st["k"] == "assign" and st["rv"]["k"] == "agg" and st["rv"].get("ak") == "closure" and not st["lhs"]["p"]:
+                cb = prog.bodies.get(st["rv"]["closure"])
+                if cb is not None and _io_fallible_ret(cb.local_ty(0)):
+                    clos[st["lhs"]["l"]] = st["rv"]["closure"]
+    for bb, t in body.calls():
+        for ai, a in enumerate(t["args"]):
+            pl = op_place(a)
+            if pl is not None and not pl["p"] and pl["l"] in clos:
+                out.append((bb, t, ai, clos[pl["l"]]))
+            elif isinstance(a, dict) and "const" in a and isinstance(a["const"], dict) and "fn" in a["const"]:
+                ty = a["const"].get("ty", "")
+                m = re.search(r"\) -> (std::result::Result<.*) \{", ty)
+                if m and _io_fallible_ret(m.group(1)):
+                    out.append((bb, t, ai, a["const"]["fn"].get("path", "?")))
+    return out
+
+
+def callable_consumed(body, bb, t):
+    """is the error of a fallible callable handed to this call propagated?  ('ok'|'bad', why)"""
+    n = cname(t["func"]) if "indirect" not in t["func"] else "<indirect>"
+    if PROPAGATING_CONSUMERS.search(n):
+        dl = t["dest"]
+        if not dl["p"] and is_result_local(body, dl["l"]):
+            return disciplined(body, dl["l"])
+        return "ok", n.split("::")[-1]
+    if LAZY_CONSUMERS.search(n) and not t["dest"]["p"]:
+        # map(f): the results are only produced; whoever drains the adaptor must collect them into a Result
+        for kind, b2, i2, x in uses_of(body, t["dest"]["l"]):
+            if kind == "arg" and i2 == 0:
+                n2 = cname(x["func"]) if "indirect" not in x["func"] else ""
+                if COLLECTING.search(n2) and not x["dest"]["p"] and is_result_local(body, x["dest"]["l"]):
+                    return disciplined(body, x["dest"]["l"])
+        return "bad", "the results produced through %s are not collected into a Result" % n.split("::")[-1]
+    return "bad", "%s does not hand the callable's error back" % n.split("<")[0].split("::")[-1] if n.split("<")[0].split("::")[-1] else n
+
 
 def is_result_local(body, l):
     ty = body.local_ty(l)
@@ -155,15 +207,11 @@ def converting_use(body, local, depth=0, seen=None):
     return None
 
 
-def check_match(body, local, bb):
-    """Explicit match on a Result: the Err arm must reach a return on every path without passing an Ok assignment to _0."""
+def err_arm(body, local, bb):
+    """Target block of the (feasible) Err arm of the switch that ends block bb and tests the Result in `local`, or None."""
     t = body.term(bb)
     if t["k"] != "switch":
-        return "ok", "discr-read"
-    if "nom::Err<" in body.local_ty(local) and "std::io::Error" not in body.local_ty(local):
-        # parser results: Incomplete/Error arms legitimately retry after reading more (C01.short-is-not-error
-        # decides that shape); only io/shim errors are transport faults that must not be swallowed
-        return "ok", "match"
+        return None
     err_t = None
     for v, g in zip(t["vals"], t["tgts"]):
         if int(v) == 1:
@@ -173,7 +221,7 @@ def check_match(body, local, bb):
         if "0" in t["vals"]:
             err_t = t["otherwise"]
         else:
-            return "ok", "match"
+            return None
     # a second read of the discriminant further down (drop elaboration re-tests the value on an arm that already knows it
     # is Ok): the `Err` edge there is infeasible when every path from the definition to this block pins the other variant
     defblk = None
@@ -187,7 +235,22 @@ def check_match(body, local, bb):
         except Exception:
             feasible = True
         if not feasible:
-            return "ok", "match"
+            return None
+    return err_t
+
+
+def check_match(body, local, bb):
+    """Explicit match on a Result: the Err arm must reach a return on every path without passing an Ok assignment to _0."""
+    t = body.term(bb)
+    if t["k"] != "switch":
+        return "ok", "discr-read"
+    if "nom::Err<" in body.local_ty(local) and "std::io::Error" not in body.local_ty(local):
+        # parser results: Incomplete/Error arms legitimately retry after reading more (C01.short-is-not-error
+        # decides that shape); only io/shim errors are transport faults that must not be swallowed
+        return "ok", "match"
+    err_t = err_arm(body, local, bb)
+    if err_t is None:
+        return "ok", "match"
     for p in enumerate_paths(body, start=err_t, max_visits=1, limit=2000):
         if p.end != "return":
             continue
@@ -228,6 +291,13 @@ def run(ctx, configs=None):
                 ctx.ob("C19.result-discipline", v == "ok", "the result of %s is not propagated: %s" % (n.split("<")[0][-70:], why),
                        fn=b.path, construct="call", callee=n, where=b.where(bb),
                        sample={"rule": "result-discipline", "fn": b.path, "callee": n[-60:], "handled_by": why} if nsites % 40 == 1 else None)
+            # fallible callables (closures / fn items returning an io Result) handed to a combinator: the combinator must hand the
+            # error back (`flat_map`, `filter_map`, `for_each`, `map(..).count()` iterate over / discard it)
+            for bb, t, ai, what in fallible_callables(prog, b):
+                v, why = callable_consumed(b, bb, t)
+                touched = True
+                ctx.ob("C19.result-discipline", v != "bad", "the io::Result of %s is handed to a combinator that drops its error: %s" % (what[-60:], why),
+                       fn=b.path, construct="fallible-callable", callee=what, where=b.where(bb))
             if touched:
                 ctx.fn(b)
         ctx.floor("C19.result-discipline", "Result-producing call sites (%s)" % cfg, nsites, 150 if cfg == "tls" else 140)
@@ -444,6 +514,11 @@ def run(ctx, configs=None):
             d = defer[0]
             ctx.fn(d)
             stores = [s_ for _, _, s_ in d.stmts() if s_["k"] == "assign" and place_fields(s_["lhs"])[:1] == ["deferred_error"]]
+            # ... or through the Option API on the field: get_or_insert(e) / insert(e) / replace(e)
+            for bb_, t_ in d.calls():
+                if "indirect" not in t_["func"] and re.search(r"Option::<T>::(get_or_insert|insert|replace)$", cname(t_["func"])) and len(t_["args"]) == 2 and \
+                        T.is_field(T.peel(d.arg_origin(bb_, 0)), "deferred_error") and T.is_param(T.peel(d.arg_origin(bb_, 1)), 2):
+                    stores.append(t_)
             ctx.ob("C19.deferred-error", len(stores) >= 1, "defer_error does not store the error", fn=d.path, construct="stores", nontrivial=False)
             fl = roles.f_flush
             n_err = 0
